@@ -12,7 +12,7 @@ EXTENDS Integers, Sequences, FiniteSets, TLC
 Get(f, k, d) == IF k \in DOMAIN f THEN f[k] ELSE d
 Put(f, k, v) == (k :> v) @@ f
 Del(f, k) == [x \in DOMAIN f \ {k} |-> f[x]]
-Restrict(f, S) == [x \in DOMAIN f \cap S |-> f[x]]
+RestrictTo(f, S) == [x \in DOMAIN f \cap S |-> f[x]]
 MaxI(a, b) == IF a > b THEN a ELSE b
 SeqToSet(s) == {s[i] : i \in DOMAIN s}
 
